@@ -50,15 +50,21 @@ CHECK = Check(
         "file: ops_preserve_WF, ops_trace — so WF is a hypothesis on the INITIAL file only)",
         "extents >= 1 for the SOURCE views of write_load_roundtrip / writeSlice_footprint (Reach => Pos: every extent of a "
         "reachable view is >= 1). Sources with a zero extent (ow-sim makes data.NewArray3DFloat64(0,0,0) for models without "
-        "inputs, simulation_model_reference.go:167) are covered by separate theorems ABOUT THE MODEL only: "
+        "inputs, simulation_model_reference.go:167) are covered by separate theorems about the model: "
         "write_empty_panics (Write of NewArray(dims) with a 0 extent panics index-out-of-range at data.Get(NewIndex(0)), "
         "after the file was opened/created, before any dataset is touched), writeSlice_empty_noop (WriteSlice of any source "
         "with a 0 extent whose Unroll() returns: block contains 0 -> library selects nothing -> nil, file exactly as "
-        "before). The H5 correspondence draws NO source view with a zero extent (fam_h5.go addArr: 'no view has an extent "
-        "0'), so for these two the agreement of model and Go code is NOT checked on every run: it rests on reading "
-        "io/hdf5.go and the gonum wrapper, and on three hand-made programs replayed once through the real io + hdf5stub "
-        "and the Lean driver (0x0x0 and 2x0x3 float64 sources: create, wslice -> ok and file unchanged, write -> panic "
-        "index-out-of-range with the file created; identical impl/model lines). DATASET shapes with a zero extent (Create [count,0,0]) are inside create_new (0 <= x), "
+        "before). The model is tied to the Go code for these sources by the H5 correspondence: about 6% of the programs "
+        "(fam_h5.go zeroOps, stats key zero_extent_source; 5 fixed corpus programs) draw a source with an extent 0 — a fresh "
+        "root without elements, or a zero-wide slice of a non-empty root (unit or stepped, also at one past the end), rank "
+        "1-3, one / two / all extents 0 — and use it in WriteSlice and Write against a dataset of that rank (also of another "
+        "rank, with loc outside / negative / of the wrong rank); result, panic class, halting and the final file are compared "
+        "exactly, and the reference oracle treats a Write that panics as having written nothing and such a WriteSlice as a "
+        "no-op. Observed on both sides (not covered by a theorem): Write of a zero-wide SLICE reads Impl[Start], which "
+        "usually exists, and goes on to the shape check / creates an empty dataset; Unroll() of a zero-wide view that "
+        "Contiguous() accepts and that is stepped, or narrower than its root in a later dimension, evaluates Impl[s:e+1] "
+        "with e+1 < s and panics inside WriteSlice, file unchanged (hypothesis `hu` of writeSlice_empty_noop excludes "
+        "it). DATASET shapes with a zero extent (Create [count,0,0]) are inside create_new (0 <= x), "
         "inside load_selection, and ARE drawn by the correspondence",
         "write_load_roundtrip / writeSlice_footprint: the source view is reachable by in-bounds slicing of a root array "
         "(Reach) on a well-windowed storage (ArrOK); Write returned nil; the block lies inside the dataset (a block outside "
@@ -94,7 +100,7 @@ META = dict(
          "a different shape; a new dataset reads as zeros; every outcome of every operation keeps the file well-formed and "
          "ONE trace theorem over lists of operations (ops_trace: WF after every prefix, the per-operation statements at every "
          "position); Load with a selection = the OW/Nd Slice of the loaded full array (load_selection_eq_nd_slice); sources "
-         "with a zero extent: Write panics, WriteSlice is a no-op (model only); a lock-discipline checker over call graphs is proved sound for all graphs and evaluated by the "
+         "with a zero extent: Write panics, WriteSlice is a no-op; a lock-discipline checker over call graphs is proved sound for all graphs and evaluated by the "
          "kernel on the call graph REGENERATED from io/*.go on every run. Model tied to the real code on every run "
          "(sliceSize/makeHyperslab enumerated; random programs of io calls over 8 element types and 5 source layouts against "
          "a pure-Go model of libhdf5, lock state asserted at every library call, concurrent callers in thorough).",
